@@ -15,7 +15,7 @@ PROPS = {
              "run by the owning properties' checks); the watchdog bound (200x the median of same-size inputs, floor 2 s). Block parsers and concrete "
              "inline parsers are not yet inside the proved model.",
         technique="Lean 4 no-panic / termination theorems over the models of the components + exhaustive and random search with watchdog on the whole pipeline",
-        components=["total", "blocks"],
+        components=["total", "blocks", "inlines"],
         explanation="Proved per modelled component for all inputs (see theorem list); searched: every string of length <= 3 over a 22-symbol and <= 4 "
                     "over an 11-symbol Markdown-significant alphabet under 4 extreme configurations, mutated/generated/adversarial/long/deep documents under "
                     "the full lattice, both API paths, panic recovery, watchdog.",
@@ -430,7 +430,7 @@ PROPS = {
              "own clause: tabs in list-item continuation indentation (KNOWN_FINDINGS).",
         technique="Lean 4 spec-side generator (trees x choices -> Markdown, prescribed HTML) + differential run against the real library; "
                   "Lean theorems for the escape-spelling law over the writer model; spec examples x licensed rewrites",
-        components=["cmspec"],
+        components=["cmspec", "inlines", "linerec", "blocks"],
         explanation="Component cmspec: (1) the driver enumerates the exhaustive small scope (families of trees of depth <= 2 x every value of "
                     "their choice axes: escapes of all 95 printable characters, ATX/Setext, fences, thematic breaks, list markers/offsets/"
                     "tightness, ordered starts, link styles/label variants/titles, emphasis delimiters and contexts, code spans, adjacent "
